@@ -188,6 +188,7 @@ func checkC16(w *World, c *Check, tier string) {
 		}
 		c.stat("dedup_calls_in_flatteners", ncalls)
 	}
+	checkFlattenDispatch(w, c)
 	assigns := collectAssigns(w, pr, clos)
 	covered := map[string]bool{}
 	for _, a := range assigns {
@@ -965,4 +966,110 @@ func sameSliceValue(a, b ssa.Value) bool {
 	la, ok1 := a.(*ssa.UnOp)
 	lb, ok2 := b.(*ssa.UnOp)
 	return ok1 && ok2 && la.Op == token.MUL && lb.Op == token.MUL && la.X == lb.X
+}
+
+// checkFlattenDispatch (C16.dispatch): the generic entry point FlattenProperties routes by type name. For every
+// vocabulary type name (with the value the registry creates for it, and GetType forced to that name) the abstract run
+// must reach the flattener of the value's Go type: FlattenActivityProperties for an Activity,
+// FlattenIntransitiveActivityProperties for an IntransitiveActivity or Question, FlattenActorProperties for an Actor, and
+// FlattenObjectProperties for every object-like value. A dispatch that sends a type to a conversion helper which refuses
+// it (and drops the error) flattens nothing for that type.
+func checkFlattenDispatch(w *World, c *Check) {
+	fp := w.Func("FlattenProperties")
+	reg := w.Func("GetItemByType")
+	avtT := w.Named("ActivityVocabularyType")
+	if fp == nil || reg == nil || avtT == nil {
+		c.bad("C16.dispatch", "anchor", "-", "FlattenProperties / GetItemByType / ActivityVocabularyType not found")
+		return
+	}
+	// the GetType() call(s) the dispatcher branches on
+	var tags []*ssa.Call
+	for _, call := range callsIn(fp) {
+		if call.Common().IsInvoke() && call.Common().Method.Name() == "GetType" {
+			tags = append(tags, call)
+		}
+	}
+	want := map[string][]string{
+		"Activity":             {"FlattenActivityProperties", "FlattenObjectProperties"},
+		"IntransitiveActivity": {"FlattenIntransitiveActivityProperties", "FlattenObjectProperties"},
+		"Question":             {"FlattenIntransitiveActivityProperties", "FlattenObjectProperties"},
+		"Actor":                {"FlattenActorProperties", "FlattenObjectProperties"},
+	}
+	// the vocabulary names: the Types and GenericTypes tables (pseudo names such as "IRI" are not types of values)
+	vocab := map[string]bool{}
+	for _, ln := range []string{"Types", "GenericTypes"} {
+		if vals, _, ok := w.ListVar(ln); ok {
+			for _, v := range vals {
+				vocab[v] = true
+			}
+		}
+	}
+	if len(vocab) < 40 {
+		c.bad("C16.dispatch", "anchor:Types", "-", "the vocabulary tables Types / GenericTypes could not be read")
+		return
+	}
+	names := sortedKeys(vocab)
+	n := 0
+	for _, name := range names {
+		if name == "" {
+			continue
+		}
+		mk := AV{K: kConst, C: constant.MakeString(name), T: avtT}
+		ip := newInterp(w)
+		res, _, _ := ip.Call(reg, []AV{mk}, nil, Store{}, nil)
+		k, item := registryResult(res)
+		if k == nil || ip.aborted != "" {
+			continue // not a vocabulary name of a Go struct (C07 decides the registry)
+		}
+		if _, isObj := w.StructInfoOf(k.Obj().Name()).Named.Underlying().(*types.Struct); !isObj {
+			continue
+		}
+		switch k.Obj().Name() {
+		case "Link":
+			continue // links are not flattened
+		case "Collection", "OrderedCollection", "CollectionPage", "OrderedCollectionPage":
+			continue // the statement speaks of activities, objects and actors; collections are flattened member-wise by Flatten
+		}
+		expected := want[k.Obj().Name()]
+		if expected == nil {
+			expected = []string{"FlattenObjectProperties"}
+		}
+		ip = newInterp(w)
+		for _, tg := range tags {
+			ip.overrides[tg] = mk
+		}
+		reached := map[string]bool{}
+		ip.onCall = func(ev callEvent) {
+			if strings.HasPrefix(ev.Callee.Name(), "Flatten") {
+				reached[ev.Callee.Name()] = true
+			}
+		}
+		ip.Call(fp, []AV{item}, nil, Store{}, nil)
+		n++
+		key := fmt.Sprintf("FlattenProperties:%q", name)
+		var missing []string
+		for _, e := range expected {
+			if !reached[e] {
+				missing = append(missing, e)
+			}
+		}
+		switch {
+		case ip.aborted != "":
+			c.bad("C16.dispatch", key, w.FuncPos(fp), "undecided: "+ip.aborted)
+		case len(missing) > 0:
+			c.bad("C16.dispatch", key, w.FuncPos(fp), fmt.Sprintf("FlattenProperties on a *%s of type %q never reaches %v (reached: %v): its embedded items are left as they are", k.Obj().Name(), name, missing, sortedKeys(reached)))
+		default:
+			c.ok("C16.dispatch", key, w.FuncPos(fp), fmt.Sprintf("*%s reaches %v", k.Obj().Name(), expected))
+		}
+	}
+	c.stat("flatten_dispatch_names", n)
+	c.floor("C16.dispatch", 40)
+}
+
+func mapValues(m map[string]string) []string {
+	var out []string
+	for _, v := range m {
+		out = append(out, v)
+	}
+	return out
 }
